@@ -319,6 +319,9 @@ def run(ctx):
                     cond_consumes = any(is_consuming_call(c, f, u) for c in _uncond(cond)) if cond else False
                 if lp.get('kind') == 'ForStmt':
                     init, cv, cond, inc, _ = for_parts(lp)
+                    # an increment clause that consumes input runs after every turn (also after `continue`)
+                    if inc is not None and inc.get('kind') and any(is_consuming_call(c, f, u) for c in _uncond(inc)):
+                        cond_consumes = True
                     r = relation(cond, True) if cond else None
                     if r and inc is not None:
                         inc_s = strip(inc)
@@ -428,6 +431,7 @@ def run(ctx):
                           'fraction digits are accumulated in the fixed-width integer `%s`: a fraction with more digits than the type holds overflows and the numeral parses to a wrong value' % (src_text(bad_acc[0], 60) if bad_acc else ''))
         # the final int/float decision follows every marker branch
         ctx.check(all(x.get('_off', 0) < dec.get('_off', 0) for x, _, _ in markers), R, 'decision-after-markers', dec, 'int/float decision is taken after scanning', 'the int/float decision precedes the fraction/exponent scan')
+    with ctx.section('C05-R9', 'C05'):
         check_whitespace_set(ctx, u, S, sflag)
     ctx.note('Entry points: JSON::parse(StringReader&, bool), (const char*, size_t, bool), (const std::string&, bool); callees resolved across JSON.cc and Strings.cc.')
 
